@@ -162,4 +162,10 @@ BENIGN = [
          new="        unit = _SYMBOL_UNIT_MAP.get(symbol)\n        if unit is None:\n            raise ValueError(\n                f\"No unit with symbol '{symbol}' registered.\")\n        return unit", props=["C15", "C18"]),
     dict(id="g024", file=R, old="        try:\n            idx = self._item_def_map[item_norm_def]\n        except KeyError:\n            item_list = self._item_list\n            idx = len(item_list)\n            item_list.append([item])\n            self._item_def_map[item_norm_def] = idx\n            return idx\n        else:",
          new="        if item_norm_def not in self._item_def_map:\n            idx = len(self._item_list)\n            self._item_list.append([item])\n            self._item_def_map[item_norm_def] = idx\n            return idx\n        idx = self._item_def_map[item_norm_def]\n        if True:", props=["C02", "C15", "C16", "C17"]),
+    dict(id="g025", multi=[
+        (Q, "    def __le__(self, other: Any) -> bool:\n        \"\"\"self <= other\"\"\"\n        return self._compare(other, operator.le)\n\n    def __gt__(self, other: Any) -> bool:\n        \"\"\"self > other\"\"\"\n        return self._compare(other, operator.gt)\n\n    def __ge__(self, other: Any) -> bool:\n        \"\"\"self >= other\"\"\"\n        return self._compare(other, operator.ge)\n\n    @overload\n    def __mul__(self, other: int) -> Quantity:  # noqa: D105\n        ...\n\n    @overload\n    def __mul__(self, other: float) -> Quantity:  # noqa: D105\n        ...\n\n    @overload\n    def __mul__(self, other: Real) -> Quantity:  # noqa: D105\n        ...\n\n    @overload\n    def __mul__(self, other: SIPrefix)",
+            "    @overload\n    def __mul__(self, other: int) -> Quantity:  # noqa: D105\n        ...\n\n    @overload\n    def __mul__(self, other: float) -> Quantity:  # noqa: D105\n        ...\n\n    @overload\n    def __mul__(self, other: Real) -> Quantity:  # noqa: D105\n        ...\n\n    @overload\n    def __mul__(self, other: SIPrefix)"),
+        (Q, "class Unit:\n    \"\"\"Unit of measure.", "@total_ordering\nclass Unit:\n    \"\"\"Unit of measure."),
+        (Q, "from decimalfp import Decimal, ONE, ROUNDING, get_dflt_rounding_mode", "from functools import total_ordering\nfrom decimalfp import Decimal, ONE, ROUNDING, get_dflt_rounding_mode"),
+    ], props=["C04", "C03", "C19"]),
 ]
